@@ -10,7 +10,7 @@ mod worlds;
 use crate::core::Tier;
 use crate::core::World;
 
-static WORLDS: &[&'static dyn World] = &[&worlds::c03::C03, &worlds::c04::C04, &worlds::c07::C07, &worlds::c11::C11, &worlds::c12::C12, &worlds::c13::C13, &worlds::c14::C14, &worlds::c15::C15, &worlds::c18::C18, &worlds::c20::C20];
+static WORLDS: &[&'static dyn World] = &[&worlds::c03::C03, &worlds::c04::C04, &worlds::c07::C07, &worlds::c11::C11, &worlds::c12::C12, &worlds::c13::C13, &worlds::c14::C14, &worlds::c15::C15, &worlds::c18::C18, &worlds::c19::C19, &worlds::c20::C20];
 
 fn find(id: &str) -> &'static dyn World {
     match WORLDS.iter().find(|w| w.id() == id) {
